@@ -6,7 +6,7 @@
 EXTENDS CsrBankContract, Json, IOUtils
 T == JsonDeserialize(IOEnv.TRACES)
 VARIABLES tid, l, envbad
-vars == <<tid, l, envbad, first, exp, stg, rd, bsel, owe, obs>>
+vars == <<tid, l, envbad, exp, stg, rd, bsel, owe, obs>>
 K == [i \in 1..Len(T) |-> Ext(T[i].cfg)]         \* evaluated once (constant)
 C == K[tid]
 Init == /\ tid \in 1..Len(T) /\ l = 1 /\ envbad = FALSE /\ CInit(C)
